@@ -508,11 +508,11 @@ static void on_alarm(int)
   char buf[512];
   int n;
   if(tp)
-    n = snprintf(buf, sizeof(buf), "%ld deadlock phase=%d queue.head=%lu queue.tail=%lu enq.state=%lu enq.flag=%d deq.state=%lu deq.flag=%d pushed=%lu processed=%lu threads=%lu\n",
+    n = snprintf(buf, sizeof(buf), "%ld deadlock phase=%d queue.head=%lu queue.tail=%lu enq.state=%lu enq.flag=%d deq.state=%lu deq.flag=%d pushed=%lu processed=%lu threads=%lu contexts=%lu\n",
                  g_case, g_phase, (unsigned long)tp->_queue._head, (unsigned long)tp->_queue._tail,
                  (unsigned long)tp->_enqueuedSignal._state, (int)tp->_enqueuedSignal._signal.signaled,
                  (unsigned long)tp->_dequeuedSignal._state, (int)tp->_dequeuedSignal._signal.signaled,
-                 (unsigned long)tp->_pushedJobs, (unsigned long)tp->_processedJobs, (unsigned long)tp->_threadCount);
+                 (unsigned long)tp->_pushedJobs, (unsigned long)tp->_processedJobs, (unsigned long)tp->_threadCount, (unsigned long)tp->_threads.size());
   else
     n = snprintf(buf, sizeof(buf), "%ld deadlock phase=%d no pool\n", g_case, g_phase);
   if(n > 0) { ssize_t w = write(1, buf, (size_t)n); (void)w; }
@@ -795,9 +795,39 @@ static void end(long c)
     printf("%ld quiet 1\n", c);
   }
   for(int i = 0; i < nops; ++i) if(ops[i].rec) { if(ops[i].rec->child) free(ops[i].rec->child); free(ops[i].rec); ops[i].rec = 0; }
-  // retire the pool (its destructor pushes one null job per worker and joins them)
+  // retire the pool.  ~ThreadPool pushes one null job per worker CONTEXT and joins the threads.  Contexts of
+  // workers that have already retired stay in the list until the next start() removes them, and the null
+  // jobs addressed to them are consumed by nobody: with the tiny queues of these cases (the library itself
+  // only ever uses capacity 256) the destructor would wait for room for ever.  That is no part of the
+  // property (no future is involved), so the harness first does what the next start() would have done:
+  // it waits until every retiring worker has marked itself terminated and removes those contexts with
+  // the library's own clean-up loop (ThreadPool::run), under the pool's mutex.
   g_phase = 3;
-  if(P::_threadPool) { delete P::_threadPool; P::_threadPool = 0; }
+  if(P::_threadPool) {
+    P::ThreadPool* tp = P::_threadPool;
+    long long t1 = raw_us();
+    bool shown = false;
+    for(;;) {
+      usize live = 0;
+      {
+        Mutex::Guard guard(tp->_mutex);
+        for(PoolList<P::ThreadPool::ThreadContext>::Iterator i = tp->_threads.begin(), end = tp->_threads.end(); i != end; ++i)
+          if(!i->_terminated) ++live;
+      }
+      if(!shown) { printf("#teardown %ld contexts=%lu live=%lu threadCount=%lu capacity=%lu\n", c, (unsigned long)tp->_threads.size(), (unsigned long)live, (unsigned long)tp->_threadCount, (unsigned long)tp->_queue._capacity); shown = true; }
+      if(live == tp->_threadCount || raw_us() - t1 > 2000000) break;
+      usleep(50);
+    }
+    {
+      Mutex::Guard guard(tp->_mutex);
+      for(PoolList<P::ThreadPool::ThreadContext>::Iterator i = tp->_threads.begin(), end = tp->_threads.end(); i != end;)
+      {
+        if(i->_terminated) i = tp->_threads.remove(i);
+        else ++i;
+      }
+    }
+    delete tp; P::_threadPool = 0;
+  }
   // all workers have ended: every completion handshake is over
   g_live_on = 0;
   printf("%ld lifetime late %d\n", c, (int)g_late_bcast);
